@@ -769,6 +769,17 @@ class Evaluator:
 
     def _mk_gphi(self, alts, typ=None):
         c = self.ctx
+        # an alternative that is itself a choice of alternatives is that choice under the conjoined gates:
+        # g -> (h -> a | k -> b)  is  (g and h) -> a | (g and k) -> b
+        flat_alts = []
+        for g, t in alts:
+            ht = c.head_of(t)
+            if ht and ht[0] == "gphi":
+                ar = c.args_of(t)
+                flat_alts += [(self._bool("and", [g, ar[i]]), ar[i + 1]) for i in range(0, len(ar), 2)]
+            else:
+                flat_alts.append((g, t))
+        alts = flat_alts
         merged = []
         for g, t in alts:
             hg = c.head_of(g)
